@@ -4059,3 +4059,325 @@ func ruleResetAccessBase(c *Ctx) {
 		c.note("the access reset does not visit the base resource separately")
 	}
 }
+
+// ---------------------------------------------------------------------------
+// PAIR/ref-counted (C09, C02): every reference value in the content of a
+// loaded resource takes one count on its child (addReference) — also the
+// second reference to the same child: removing one of two references later
+// gives one count back, and with only one taken the child is released while
+// the other reference still shows it to the client. Every path of
+// subscribeRef that reports success has either found that the value is no
+// reference or taken the count.
+func ruleRefCounted(c *Ctx) {
+	p := c.P
+	fn := p.Fn("(*server.Subscription).subscribeRef")
+	addRef := p.Method("server.Subscription.addReference")
+	fType := p.Field("codec.Value.Type")
+	kRef := p.ConstInt("codec.ValueTypeReference", -1)
+	if fn == nil || addRef == nil || fType == nil || kRef < 0 {
+		c.undecided("(*server.Subscription).subscribeRef", "anchor", "-", "not found")
+		return
+	}
+	sp := &Spec{InlineHelpers: true, EdgeLimit: 1}
+	sp.Classify = func(t *Tracer, fr *Frame, in ssa.Instruction) []Ev {
+		if _, ok := isCallTo(in, addRef); ok {
+			return []Ev{{Kind: "counted", Stop: true}}
+		}
+		if r, ok := in.(*ssa.Return); ok && fr == t.RootFr && len(r.Results) == 1 {
+			if b, isC := constBool(t.Resolve(fr, r.Results[0]).V); isC && b {
+				return []Ev{{Kind: "ok"}}
+			}
+			return []Ev{{Kind: "not-ok"}}
+		}
+		return nil
+	}
+	sp.Branch = func(t *Tracer, fr *Frame, i *ssa.If, dir bool) []Ev {
+		x, op, k, ok := cmpConst(i.Cond)
+		if !ok || k != kRef {
+			return nil
+		}
+		f, _ := fieldLoad(x)
+		if f == nil {
+			f, _ = fieldLoad(t.Resolve(fr, x).V)
+		}
+		if f != fType {
+			// a value parameter's member: Field extraction
+			if fe, isF := stripConv(x).(*ssa.Field); !isF || fe.X.Type().String() != fType.Pkg().Path()+".Value" {
+				return nil
+			}
+		}
+		if (op == token.EQL) == dir {
+			return []Ev{{Kind: "is-ref"}}
+		}
+		return []Ev{{Kind: "not-ref"}}
+	}
+	pathRule(c, fn, "every reference value of a loaded resource takes a count on its child", sp, 2, func(tr *Tracer, path []Ev) string {
+		if hasKind(path, "ok") && !hasKind(path, "not-ref") && !hasKind(path, "counted") {
+			return "subscribeRef reports success for a reference value without taking a count on the child: the second reference to the same child is not counted, and removing one of the two releases the child while the client still sees the other"
+		}
+		return ""
+	})
+}
+
+// ---------------------------------------------------------------------------
+// Round 14.
+//
+// DOM/subscribe-live (C11): a connection that is closing takes no new resource
+// subscription: every call of Cache.Subscribe from the connection lies behind
+// disposing == false (in the function or, for an unexported step, in every one
+// of its callers). A late call/auth answer carrying a resource reference would
+// otherwise send get and access requests for a connection whose conn.<cid>
+// subscription is gone, and take a cache use nobody gives back.
+func ruleSubscribeLive(c *Ctx) {
+	p := c.P
+	sub := p.Method("rescache.Cache.Subscribe")
+	fDisp := p.Field("server.wsConn.disposing")
+	if sub == nil || fDisp == nil {
+		c.undecided("(*rescache.Cache).Subscribe", "anchor", "-", "not found")
+		return
+	}
+	live := boolFieldGuard(fDisp, false)
+	n := 0
+	for _, fn := range p.Repo {
+		if !inScopePkgs(fn, "server") {
+			continue
+		}
+		for _, call := range callsIn(fn) {
+			if _, ok := isCallTo(call, sub); !ok {
+				continue
+			}
+			n++
+			c.inst(1)
+			c.check(p.guardedUp(call, live, 0), fnName(fn), "a closing connection takes no new resource subscription", p.InstrPos(call), "behind disposing == false (here or in every caller)",
+				"the cache is asked to subscribe on behalf of a connection that may be closing: get and access requests go out under a cid whose connection subscription is released, and the cache use is never given back")
+		}
+	}
+	if n == 0 {
+		c.viol("(*server.wsConn).subscribe", "a closing connection takes no new resource subscription", "-", "no call of Cache.Subscribe found: anchor lost")
+	}
+}
+
+// WHO/handle-event (C12, C03): who hands events to a cached resource. An event
+// reaches ResourceSubscription.handleEvent from the entry's message handler,
+// from the answer of a query event, and from the diff of a re-fetch — nowhere
+// else. In particular nothing replays events later: what arrived while a
+// re-fetch was outstanding is contained in the re-fetched state, and applying it
+// again after the diff applies it twice.
+func ruleWhoHandleEvent(c *Ctx) {
+	p := c.P
+	he := p.Method("rescache.ResourceSubscription.handleEvent")
+	if he == nil {
+		c.undecided("(*rescache.ResourceSubscription).handleEvent", "anchor", "-", "not found")
+		return
+	}
+	allowed := map[string]bool{}
+	for _, n := range []string{"(*rescache.EventSubscription).enqueueEvent", "(*rescache.EventSubscription).handleQueryEvent",
+		"(*rescache.ResourceSubscription).processResetGetResponse", "(*rescache.ResourceSubscription).processResetModel", "(*rescache.ResourceSubscription).processResetCollection"} {
+		if f := p.Fn(n); f != nil {
+			allowed[fnName(f)] = true
+		}
+	}
+	n := 0
+	for _, fn := range p.Repo {
+		if !inScopePkgs(fn, "rescache", "server") {
+			continue
+		}
+		for _, call := range callsIn(fn) {
+			if _, ok := isCallTo(call, he); !ok {
+				continue
+			}
+			n++
+			c.inst(1)
+			owner, ok := p.ownedBy(fn, func(nm string) bool { return allowed[nm] })
+			if !ok && p.onReferenceTree(TopLevel(fn)) {
+				ok = allowed[fnName(TopLevel(fn))]
+			}
+			c.check(ok, fnName(fn), "events reach a cached resource from the message handler, a query answer or the diff of a re-fetch only", p.InstrPos(call), "called from "+owner,
+				"a further source hands events to the cached resource: events replayed after a re-fetch are applied a second time (the re-fetched state already contains them) and clients diverge from the service")
+		}
+	}
+	if n < 3 {
+		c.viol("(*rescache.ResourceSubscription).handleEvent", "events reach a cached resource from the listed sources only", "-", fmt.Sprintf("only %d call sites found: anchor lost", n))
+	}
+}
+
+// PROV/origin-entry (C17): the configured allow-list of origins is compared as it
+// was written, apart from ASCII lower-casing: the only value stored back into the
+// list by its validation is the lower-cased entry. An entry rewritten further
+// (a port stripped, a scheme normalised) admits origins the operator did not list.
+func ruleOriginEntry(c *Ctx) {
+	p := c.P
+	fn := p.Fn("server.validateAllowOrigin")
+	lower := p.PkgFunc("server.toLowerASCII")
+	if fn == nil {
+		c.undecided("server.validateAllowOrigin", "anchor", "-", "not found")
+		return
+	}
+	n := 0
+	for _, g := range p.withNewHelpers(fn) {
+		for _, in := range instrsOf(g) {
+			st, ok := in.(*ssa.Store)
+			if !ok {
+				continue
+			}
+			ia, ok := st.Addr.(*ssa.IndexAddr)
+			if !ok {
+				continue
+			}
+			if _, isP := ia.X.(*ssa.Parameter); !isP {
+				continue
+			}
+			n++
+			c.inst(1)
+			good := false
+			v := stripConv(st.Val)
+			if u, ok := v.(*ssa.UnOp); ok && u.Op == token.MUL {
+				// through the loop variable's cell
+				if al, ok := u.X.(*ssa.Alloc); ok && al.Referrers() != nil {
+					all := true
+					k := 0
+					for _, r := range *al.Referrers() {
+						if s2, ok := r.(*ssa.Store); ok && s2.Addr == ssa.Value(al) && dominates(s2, st) {
+							k++
+							if cl, ok := stripConv(s2.Val).(*ssa.Call); !ok || lower == nil || calleeFunc(&cl.Call) != lower {
+								if _, isExtract := stripConv(s2.Val).(*ssa.Extract); !isExtract {
+									all = false
+								}
+							}
+						}
+					}
+					good = all && k > 0
+				}
+			}
+			if cl, ok := v.(*ssa.Call); ok && lower != nil && calleeFunc(&cl.Call) == lower {
+				good = true
+			}
+			c.check(good, fnName(g), "the validation of the origin allow-list stores back only the lower-cased entry", p.InstrPos(st), "stored value is toLowerASCII(entry)",
+				"an allow-list entry is rewritten beyond lower-casing: origins are admitted (or refused) that differ from what the operator listed")
+		}
+	}
+	if n == 0 {
+		c.note("the validation does not rewrite the list")
+	}
+}
+
+// WHO/stop-channel (C20): the stop channel carries the cause of a stop to the
+// owner of the service, once. Inside the gateway it is only created, sent to,
+// closed, cleared and handed out: nothing in the package receives from it — a
+// receive takes the single buffered cause away from the owner.
+func ruleStopChannel(c *Ctx) {
+	p := c.P
+	fStop := p.Field("server.Service.stop")
+	if fStop == nil {
+		c.undecided("server.Service.stop", "anchor", "-", "not found")
+		return
+	}
+	isStopChan := func(v ssa.Value, depth int) bool { return false }
+	var rec func(v ssa.Value, depth int) bool
+	rec = func(v ssa.Value, depth int) bool {
+		if depth > 5 || v == nil {
+			return false
+		}
+		v = stripConv(v)
+		if f, _ := fieldLoad(v); f == fStop {
+			return true
+		}
+		switch x := v.(type) {
+		case *ssa.Phi:
+			for _, e := range x.Edges {
+				if rec(e, depth+1) {
+					return true
+				}
+			}
+		case *ssa.UnOp:
+			if x.Op == token.MUL {
+				if al, ok := x.X.(*ssa.Alloc); ok && al.Referrers() != nil {
+					for _, r := range *al.Referrers() {
+						if st, ok := r.(*ssa.Store); ok && st.Addr == ssa.Value(al) && rec(st.Val, depth+1) {
+							return true
+						}
+					}
+				}
+			}
+		}
+		return false
+	}
+	isStopChan = rec
+	n := 0
+	for _, fn := range p.Repo {
+		if !inScopePkgs(fn, "server") {
+			continue
+		}
+		for _, in := range instrsOf(fn) {
+			switch x := in.(type) {
+			case *ssa.UnOp:
+				if x.Op == token.ARROW && isStopChan(x.X, 0) {
+					n++
+					c.viol(fnName(fn), "nothing inside the gateway receives from the stop channel", p.InstrPos(x), "a receive on the service's stop channel takes the buffered cause of the stop: the owner reads nil (a clean stop) instead of the lost-connection error")
+				}
+			case *ssa.Select:
+				for _, st := range x.States {
+					if st.Dir == types.RecvOnly && isStopChan(st.Chan, 0) {
+						n++
+						c.viol(fnName(fn), "nothing inside the gateway receives from the stop channel", p.InstrPos(x), "a select receives from the service's stop channel: the cause of the stop is taken away from the owner")
+					}
+				}
+			}
+		}
+	}
+	c.inst(1)
+	if n == 0 {
+		c.ok("server.Service.stop", "nothing inside the gateway receives from the stop channel", "-", "no receive on the stop channel in package server")
+	}
+}
+
+// WHO/decoded-as-sent (C04, C06): a decoder of the codec package hands the message
+// on as the service sent it: after json.Unmarshal it validates, it does not
+// rewrite members of the decoded value. In particular a token event with token
+// null stays distinguishable from a connection that never had a token: folded
+// into "no token", the login that follows a logout takes the first-token path
+// and re-validates nothing.
+func ruleDecodedAsSent(c *Ctx) {
+	p := c.P
+	n := 0
+	for _, fn := range p.Repo {
+		if fn.Parent() != nil || !inScopePkgs(fn, "codec") || !strings.HasPrefix(fn.Name(), "Decode") {
+			continue
+		}
+		n++
+		c.inst(1)
+		bad := ""
+		// the decoded value: the local handed to json.Unmarshal
+		targets := map[ssa.Value]bool{}
+		var unm []ssa.Instruction
+		for _, call := range callsIn(fn) {
+			if m := calleeFunc(call.Common()); m != nil && m.Pkg() != nil && m.Pkg().Path() == "encoding/json" && m.Name() == "Unmarshal" && len(call.Common().Args) == 2 {
+				targets[stripConv(call.Common().Args[1])] = true
+				unm = append(unm, call)
+			}
+		}
+		for _, in := range instrsOf(fn) {
+			st, ok := in.(*ssa.Store)
+			if !ok {
+				continue
+			}
+			fa, ok := st.Addr.(*ssa.FieldAddr)
+			if !ok || !targets[fa.X] {
+				continue
+			}
+			after := false
+			for _, u := range unm {
+				if dominates(u, st) {
+					after = true
+				}
+			}
+			if after {
+				bad = "member " + fieldOfAddr(fa).Name() + " of the decoded message is rewritten after decoding (" + p.InstrPos(st) + "): what the handler sees is not what the service sent"
+			}
+		}
+		c.check(bad == "", fnName(fn), "a decoder validates the message, it does not rewrite it", p.Pos(fn.Pos()), "no store into the decoded value after json.Unmarshal", bad)
+	}
+	if n == 0 {
+		c.viol("codec", "a decoder validates the message, it does not rewrite it", "-", "no decoder found: anchor lost")
+	}
+}
